@@ -318,3 +318,35 @@ register(Contract(
     raises=[Raises("BadPluginError"), Raises("BadPluginFixError")],
     modifies=[f"{D4}.$dict", "self.__current_list_level", "g_reports.$list", "g_fixreq.$list"],
 ))
+
+# ------------------------------------------------------------------------------------------------------------ MD046
+# newdocs/src/plugins/rule_md046.md: every code block must be of the configured style (fenced / indented) or, for `consistent`, of the
+# style of the first code block of the document.  Scan mode only is specified here (the fix replaces token ranges, C08): state E =
+# expected style ('' = not yet known); a code block of style c: E' = E if E != '' else c; reported iff E' != c, at the block's position.
+M46 = "pymarkdown/plugins/rule_md_046.py::RuleMd046."
+_R["$fields"].types.update({"RuleMd046._RuleMd046__style_type": "str", "RuleMd046._RuleMd046__actual_style_type": "str",
+                            "RuleMd046._RuleMd046__start_fix_token": "Optional[MarkdownToken]", "RuleMd046._RuleMd046__last_token": "Optional[MarkdownToken]"})
+A46 = "self.__actual_style_type"
+CUR46 = "('fenced' if token.is_fenced_code_block else 'indented')"
+EXP46 = f"(old({A46}) if old({A46}) != '' else {CUR46})"
+register(Contract(
+    key=M46 + "starting_new_file", properties=P + ["C13"],
+    ensures=[f"{A46} == (self.__style_type if self.__style_type != 'consistent' else '')", "self.__last_token is None",
+             "self.__start_fix_token is None"],
+    modifies=[A46, "self.__last_token", "self.__start_fix_token", "self.__inner_fix_token"]))
+register(Contract(
+    key=M46 + "next_token", properties=P,
+    ghost={"g_reports": "List[Any]"},
+    calls={"self.report_next_token_error": RPK + "report_next_token_error"},
+    requires=["not context.in_fix_mode", "self.__start_fix_token is None",          # scan mode: no fix is ever started
+              "has_type(token.line_number, 'int') and has_type(token.column_number, 'int')"],
+    ensures=[
+        "self.__last_token is token", "self.__start_fix_token is None",
+        f"implies(not token.is_code_block, {A46} == old({A46}) and len(g_reports) == old(len(g_reports)))",
+        f"implies(token.is_code_block, {A46} == {EXP46} and len(g_reports) == old(len(g_reports)) + (1 if {EXP46} != {CUR46} else 0))",
+        f"implies(token.is_code_block and {EXP46} != {CUR46}, g_reports[len(g_reports) - 1][1] == token.line_number and "
+        "g_reports[len(g_reports) - 1][2] == token.column_number)",
+    ],
+    raises=[Raises("BadPluginError")],
+    modifies=[A46, "self.__last_token", "g_reports.$list"],
+))
